@@ -55,7 +55,7 @@ class Null(Expression):
         return other is None or isinstance(other, Null)
 
     def __str__(self) -> str:
-        return ""
+        return "nil"
 
     def __hash__(self) -> int:
         return hash(self.__class__)
@@ -827,7 +827,7 @@ class Filter:
 
     def __str__(self) -> str:
         if self.args:
-            return f"{self.name}: {''.join(str(arg) for arg in self.args)}"
+            return f"{self.name}: {', '.join(str(arg) for arg in self.args)}"
         return self.name
 
     def validate_filter_arguments(self, env: Environment) -> None:
